@@ -85,6 +85,10 @@ def forunpack(K, f, g, h):
     for a, b in [K, K]:
         h(a)
     return 0
+def compthen(K, f, g, h):
+    r = [g(x) for x in K]
+    h(0)
+    return {x: h(x) for x in r}
 def iadd(x, y):
     x += y
     return x
@@ -119,6 +123,7 @@ var zzC06Constructs = []zzC06Construct{
 	{"brknested", 2, 1, 0, 0},
 	{"callee", 2, 0, 0, 0},
 	{"forunpack", 0, 0, 0, 2},
+	{"compthen", 0, 1, 0, 0},
 }
 
 // zzC06K is the collection under test with its raw accessors.
